@@ -986,6 +986,8 @@ def is_pure_callable(f):
     mod = getattr(f, '__module__', None) or ''
     if mod in ('posixpath', 'genericpath', 're', 'math', 'operator', 'json', 'pprint', 'textwrap'):
         return True
+    if mod == 'ast' and getattr(f, '__name__', '') == 'literal_eval':
+        return True
     if mod.split('.')[0] == 'networkx':
         return True          # trusted graph library on concrete graphs (listed in the target's trusted base)
     if isinstance(f, type) and f in (str, int, float, bool, list, dict, tuple, set, frozenset, bytes):
